@@ -14,7 +14,11 @@ Z3_TIMEOUT_MS = int(os.environ.get('PYVC_Z3_TIMEOUT_MS', '10000'))
 CVC5_TIMEOUT_S = int(os.environ.get('PYVC_CVC5_TIMEOUT_S', '15'))
 CVC5 = '/usr/bin/cvc5'
 
-STATS = {'z3': {'n': 0, 's': 0.0}, 'cvc5': {'n': 0, 's': 0.0}, 'feas': {'n': 0, 's': 0.0}}
+CROSSCHECK = os.environ.get('PYVC_CROSSCHECK') == '1'
+CROSS_TIMEOUT_S = int(os.environ.get('PYVC_CROSS_TIMEOUT_S', '10'))
+
+STATS = {'z3': {'n': 0, 's': 0.0}, 'cvc5': {'n': 0, 's': 0.0}, 'feas': {'n': 0, 's': 0.0},
+         'cross': {'n': 0, 's': 0.0, 'unsat': 0, 'sat': 0, 'unknown': 0}}
 
 
 def check(assumptions, goal, want_model=True, timeout_ms=None, use_cvc5=True):
@@ -30,6 +34,15 @@ def check(assumptions, goal, want_model=True, timeout_ms=None, use_cvc5=True):
     STATS['z3']['n'] += 1
     STATS['z3']['s'] += dt
     if r == z3.unsat:
+        if CROSSCHECK and os.path.exists(CVC5):
+            # thorough tier: every goal z3 discharges is put to cvc5 as well (independent solver, SMT-LIB text)
+            t1 = time.time()
+            v, out = cvc5_check(s.to_smt2(), tlimit_s=CROSS_TIMEOUT_S)
+            STATS['cross']['n'] += 1
+            STATS['cross']['s'] += time.time() - t1
+            STATS['cross'][v] = STATS['cross'].get(v, 0) + 1
+            if v == 'sat':
+                return 'unknown', 'z3+cvc5', dt, 'solver disagreement: z3 unsat, cvc5 sat'
         return 'unsat', 'z3', dt, None
     if r == z3.sat:
         m = s.model() if want_model else None
@@ -47,7 +60,8 @@ def check(assumptions, goal, want_model=True, timeout_ms=None, use_cvc5=True):
     return 'unknown', 'z3+cvc5', time.time() - t0, reason
 
 
-def cvc5_check(smt2_text, produce_model=False):
+def cvc5_check(smt2_text, produce_model=False, tlimit_s=None):
+    tl = tlimit_s or CVC5_TIMEOUT_S
     txt = '(set-logic ALL)\n' + smt2_text
     if produce_model:
         txt = '(set-option :produce-models true)\n' + txt.replace('(check-sat)', '(check-sat)\n(get-model)')
@@ -55,8 +69,8 @@ def cvc5_check(smt2_text, produce_model=False):
         f.write(txt)
         path = f.name
     try:
-        p = subprocess.run([CVC5, '--strings-exp', '--tlimit=%d' % (CVC5_TIMEOUT_S * 1000), path],
-                           capture_output=True, text=True, timeout=CVC5_TIMEOUT_S + 5)
+        p = subprocess.run([CVC5, '--strings-exp', '--tlimit=%d' % (tl * 1000), path],
+                           capture_output=True, text=True, timeout=tl + 5)
         out = (p.stdout + p.stderr).strip()
         first = out.split('\n', 1)[0].strip() if out else ''
         if first in ('unsat', 'sat'):
